@@ -252,10 +252,15 @@ impl Check for C16 {
         let mut d = domain();
         let n = d.elems.len();
         if chunk == n {
-            // all ordered pairs
-            for i in 0..n {
+            // all ordered pairs, with the evidence being about an unrelated variable, about v0 and about v1 (evidence
+            // that mentions the variable it is about is self-referential)
+            let unrelated = d.parent;
+            let about = [unrelated, d.v[0], d.v[1]];
+            for which in 0..3 {
+              d.parent = about[which];
+              for i in 0..n {
                 for j in 0..n {
-                    ctx.case(|| json!({"pair": [i, j]}));
+                    ctx.case(|| json!({"pair": [i, j], "about": which}));
                     ctx.count("evaluations", 1);
                     ctx.count("pairs", 1);
                     let p = pair(&mut d, i, j);
@@ -270,9 +275,9 @@ impl Check for C16 {
                                 let mut parts = vec![short(&d.elems[i]), short(&d.elems[j])];
                                 parts.sort();
                                 ctx.violation(
-                                    format!("comm:{{{}}}", parts.join(" . ")),
-                                    format!("merge({desc}) = {x:?} but flipped = {y:?}"),
-                                    json!({"pair": [i, j]}),
+                                    format!("comm:{{{}}}{}", parts.join(" . "), ["", ":about-v0", ":about-v1"][which]),
+                                    format!("merge({desc}) = {x:?} but flipped = {y:?} (evidence about {})", ["an unrelated variable", "v0", "v1"][which]),
+                                    json!({"pair": [i, j], "about": which}),
                                 );
                             } else if i < j {
                                 ctx.sample(|| json!({"pair": desc, "outcome": x.expr, "joined_v0_v1": x.joined}));
@@ -281,11 +286,13 @@ impl Check for C16 {
                         (Err(p), _) | (_, Err(p)) => ctx.violation(
                             format!("panic:{}", panic_site(p)),
                             format!("merge({desc}) panicked: {p}"),
-                            json!({"pair": [i, j]}),
+                            json!({"pair": [i, j], "about": which}),
                         ),
                     }
                 }
+              }
             }
+            d.parent = unrelated;
             return;
         }
         let i = chunk;
@@ -325,7 +332,7 @@ impl Check for C16 {
     }
     fn coverage(&self, _tier: Tier, total: &Ctx) -> Map<String, Value> {
         let rule = "the whole stated domain: Any, dynamic bytes, 4 open usages x 6 widths + 4 fixed-width usages, 4 mappings / 2 dynamic \
-                    arrays / 4 fixed arrays over {v0, v1}, one conflict (41 elements); ALL ordered pairs (commutativity) and ALL ordered \
+                    arrays / 4 fixed arrays over {v0, v1}, one conflict (41 elements); ALL ordered pairs (commutativity; with the evidence about an unrelated variable, about v0 and about v1) and ALL ordered \
                     triples (associativity) through the real unification::merge, compared after normalisation (conflicts collapsed, \
                     variables replaced by class representative under the emitted equalities, partition of {v0,v1}; only conflict-ness \
                     when a side conflicts). non-trivial = pairwise-distinct elements, none of them Any, result not a conflict on both \
@@ -343,6 +350,11 @@ impl Check for C16 {
         let c = &replay["case"];
         if let Some(p) = c.get("pair") {
             let (i, j) = (p[0].as_u64().unwrap() as usize, p[1].as_u64().unwrap() as usize);
+            match c["about"].as_u64() {
+                Some(1) => d.parent = d.v[0],
+                Some(2) => d.parent = d.v[1],
+                _ => {}
+            }
             let r = pair(&mut d, i, j);
             println!("merge({}, {}) = {:?}", short(&d.elems[i]), short(&d.elems[j]), r.ab);
             println!("merge({}, {}) = {:?}", short(&d.elems[j]), short(&d.elems[i]), r.ba);
